@@ -681,6 +681,7 @@ def build_parser(repo, external=(), canary=None, with_witness=True, boost=False)
             raise LostAnchor(f"src/parser.rs enum {name}: unexpected attributes {e.attrs}")
         log["dropped"].append({"site": f"src/parser.rs enum {name}", "text": e.attrs[0], "why": "comparison impls are not used by the functions under contract (only `match`)"})
         b.add(e.text())
+    b.add(read("spec/parser_view.rs"))
     b.add(read("spec/parser_spec.rs"))
 
     sp = Woven(parser_rs, "fn", "span", log)
@@ -709,19 +710,267 @@ def build_parser(repo, external=(), canary=None, with_witness=True, boost=False)
     return b
 
 
+# ---------------------------------------------------------------------------------------------
+# U5: the 36 memoised recursive-descent functions (`parse_term` .. `parse_jumbo_term`) and their macros
+
+PACKRAT_HEADER = (
+    "// GENERATED by /verif/weave on every run from /repo's working tree -- do not edit.\n"
+    "#![allow(unused_imports, dead_code, unused_variables, non_snake_case, unused_mut, unused_parens, unused_braces, unused_macros, unused_assignments)]\n"
+    "use vstd::prelude::*;\nuse std::rc::Rc;\nuse std::path::Path;\n"
+)
+
+PACKRAT_MACROS = ["cache_check", "cache_return", "try_return", "try_eval", "consume_token_0", "consume_token_1", "expect_token_0", "expect_token_1"]
+
+
+def snake(name):
+    return re.sub(r"(?<!^)([A-Z])", r"_\1", name).lower()
+
+
+def packrat_functions(repo):
+    """[(Nonterminal variant, function name)] read from the real `enum Nonterminal`."""
+    parser_rs = Source(repo, "src/parser.rs")
+    _, _, lines, _ = parser_rs.item("enum", "Nonterminal")
+    out = []
+    for l in lines[1:-1]:
+        m = re.match(r"^    (\w+),$", l)
+        if not m:
+            if l.strip() == "" or l.strip().startswith("//"):
+                continue
+            raise LostAnchor(f"src/parser.rs enum Nonterminal: unexpected line `{l.strip()}`")
+        out.append((m.group(1), "parse_" + snake(m.group(1))))
+    return out
+
+
+def weave_macro(w, sc):
+    """The macros are copied verbatim; the memo-table operations become calls of the stubs (R14); the two
+    scanning macros get loop invariants, for which their body is wrapped in `verus_exec_expr!` (annotation)."""
+    name = w.name
+    if name == "cache_check":
+        w.rewrite_regex("R14-cache", r"\$cache\.get\(&cache_key\)", "cache_get($cache, &cache_key)", expect=1, note="HashMap::get on the memo table -> stub with the same meaning over the uninterpreted cache_lookup")
+        w.rewrite_regex("R14-cache", r"return result\.clone\(\);", "return result;", expect=1, note="cache_get already returns the cloned entry")
+    elif name == "cache_return":
+        w.rewrite_regex("R14-cache", r"\$cache\.insert\(cache_key, value\.clone\(\)\);", "cache_put($cache, cache_key, &value);", expect=1, note="HashMap::insert of a clone -> stub")
+    elif name in ("expect_token_0", "expect_token_1"):
+        if name == "expect_token_0":
+            w.rewrite_regex("R13-match-place", r"match tokens\[next\]\.variant \{", "match &tokens[next].variant {", expect=1, note="Verus 0.2026.09.13 panics (ast_to_sst stms0) on a guarded match whose scrutinee is an index place; matching on a reference is equivalent for patterns without bindings")
+        # wrap the body: `) => {{` .. `}};`  ->  `) => { verus_exec_expr!{{` .. `}} };`
+        i = w.find(r"^    \) => \{\{$")
+        j = w.find(r"^    \}\};$")
+        w.lines[i] = "    ) => { verus_exec_expr!{{"
+        w.lines[j] = "    }} };"
+        w.log["annotations"].append({"fn": name, "kind": "verus_exec_expr wrapper (syntax only)"})
+        k = w.find(r"^\s*let mut next = next;$")
+        w.lines[k:k] = sc["expect.ghost"].rstrip("\n").split("\n")
+        w.log["annotations"].append({"fn": name, "kind": "ghost-let"})
+        w.while_invariant(1, sc[name + ".invariant"])
+
+
+def drop_format_args(w):
+    """R5: `&format!(..)` message arguments (expectation texts) -> `""`."""
+    i = 0
+    n = 0
+    while i < len(w.lines):
+        l = w.lines[i]
+        m = re.match(r"^(\s*)&format!\(", l)
+        if m:
+            j = i if l.rstrip().endswith("),") else w.block_end(i)
+            if not w.lines[j].rstrip().endswith("),"):
+                raise LostAnchor(f"{w._where(i)}: &format!(..) is not a whole macro argument")
+            w.rewrite_lines("R5-message", i, j, [m.group(1) + '"",'], note="expectation text (only ever shown to the user) dropped")
+            n += 1
+        i += 1
+    return n
+
+
+def statement_end(w, i):
+    """Last line of the `let` statement starting on line i (bracket depth back to zero and a trailing `;`)."""
+    depth = 0
+    for j in range(i, len(w.lines)):
+        l = w.lines[j]
+        code = l.split("//")[0] if not l.lstrip().startswith("//") else ""
+        code = re.sub(r'"[^"]*"', '""', code)
+        depth += sum(code.count(c) for c in "([{") - sum(code.count(c) for c in ")]}")
+        if depth == 0 and code.rstrip().endswith(";"):
+            return j
+        if depth < 0:
+            break
+    raise LostAnchor(f"{w._where(i)}: cannot find the end of this statement")
+
+
+def mark_positions(w, sc):
+    """After every statement that binds `next`, mark the new position as a candidate split point of the
+    production (`proof { assert(mid(next as int)); }`) -- annotation only."""
+    i = 0
+    n = 0
+    while i < len(w.lines):
+        m = re.match(r"^(\s*)let ([^=]*?) =( |$)", w.lines[i])
+        if m and re.search(r"\bnext\b", m.group(2)):
+            j = statement_end(w, i)
+            w.lines[j + 1 : j + 1] = [m.group(1) + sc["parse.mark"].strip()]
+            n += 1
+            i = j + 1
+        i += 1
+    w.log["annotations"].append({"fn": w.name, "kind": "position-marks", "count": n})
+
+
+def weave_parse_prefix(w, sc):
+    """`parse`: keep everything up to and including the [tag:error_check] block; cut the rest (R16); state what
+    holds at the cut as an assertion."""
+    i = w.find(r"^    let mut (\w+) = Cache::new\(\);$")
+    cache = re.match(r"^    let mut (\w+) = ", w.lines[i]).group(1)
+    w.rewrite_lines("R14-cache", i, i, [f"    let mut {cache} = cache_new();"], note="HashMap::new() -> stub: an empty memo table")
+    i = w.find(r"^    let \((\w+), (\w+), _\) = parse_term\(&mut %s, (\w+), 0\);$" % cache)
+    term, nxt, toks = re.match(r"^    let \((\w+), (\w+), _\) = parse_term\(&mut \w+, (\w+), 0\);$", w.lines[i]).groups()
+    # the rejecting exit
+    i = w.find(r"^        return Err\(\w+$")
+    j = statement_end(w, i)
+    w.rewrite_lines("R16-parse-exits", i, j, ["        return parse_rejected();"], note="the Err(..) value (error factories applied to the source) is outside the property")
+    # the cut: first statement after the block `if !<factories>.is_empty() { return .. }`
+    k = w.find(r"^    if !\w+\.is_empty\(\) \{$")
+    e = w.block_end(k)
+    last = len(w.lines) - 1
+    if w.lines[last] != "}":
+        raise LostAnchor("src/parser.rs fn parse: closing brace not found")
+    cut = [l for l in w.lines[e + 1 : last]]
+    if not any(re.search(r"\breassociate_applications\(", l) for l in cut) or not any(re.search(r"\bresolve_variables\(", l) for l in cut):
+        raise LostAnchor("src/parser.rs fn parse: the part after [tag:error_check] does not look as expected (re-association + resolve_variables)")
+    hint = sc["parse.cut"].replace("$TERM", term).replace("$NEXT", nxt).replace("$TOKENS", toks).rstrip("\n").split("\n")
+    w.rewrite_lines("R16-parse-exits", e + 1, last - 1, hint + ["    parse_remainder()"], note="the remainder of parse() (re-association calls, resolve_variables, check_definitions) is cut from the woven copy; the assertion states what holds when control reaches it")
+    w.contract(sc["parse_fn.contract"], ret="r")
+
+
+def weave_parse_fn(w, nt, sc):
+    strip_clippy(w)
+    drop_format_args(w)
+    if w.count(r"Rc::new\(move \|source_path, source_contents\| \{$"):
+        i = w.find(r"^\s*errors\.push\(Rc::new\(move \|source_path, source_contents\| \{$")
+        j = w.block_end(i)
+        ind = re.match(r"^\s*", w.lines[i]).group(0)
+        w.rewrite_lines("R15-error-closure", i, j, [ind + "errors.push(opaque_error_factory());"], note="closure that formats the 'parenthesis was never closed' message (format!/listing/throw) -> opaque ErrorFactory value; only the fact that one is pushed matters")
+    if w.name == "parse_group":
+        # names used by the hint are taken from the code
+        i = w.find(r"^\s*let \((\w+), (\w+), (\w+)\) = try_eval!\(.*\bparse_term\(")
+        inner = re.match(r"^\s*let \((\w+), ", w.lines[i]).group(1)
+        k = w.find(r"^\s*let mut (\w+) = %s\.errors\.clone\(\);$" % inner)
+        errs = re.match(r"^\s*let mut (\w+) = ", w.lines[k]).group(1)
+        last = [n for n, l in enumerate(w.lines) if re.match(r"^    cache_return!\($", l)]
+        if len(last) != 1:
+            raise LostAnchor(f"{w.src.rel} fn parse_group: expected one final cache_return!(")
+        w.lines[last[0]:last[0]] = sc["parse_group.hint"].replace("$TERM", inner).replace("$ERRS", errs).rstrip("\n").split("\n")
+        w.log["annotations"].append({"fn": w.name, "kind": "proof-before", "anchor": "final cache_return!"})
+    mark_positions(w, sc)
+    w.contract(sc["parse.contract"].replace("$NT", nt), ret="r", attrs="#[verifier::exec_allows_no_decreases_clause]")
+
+
+def build_packrat(repo, external=(), canary=None, with_witness=True, boost=False):
+    b = Build("packrat")
+    log = b.log
+    sc = sections(os.path.join(VERIF, "contracts/u5.vrs"))
+    parser_rs = Source(repo, "src/parser.rs")
+    error_rs = Source(repo, "src/error.rs")
+    token_rs = Source(repo, "src/token.rs")
+    b.add(PACKRAT_HEADER)
+    for name in PACKRAT_MACROS:
+        m = Woven(parser_rs, "macro_rules!", name, log)
+        weave_macro(m, sc)
+        b.add(m.text())
+    b.add("verus! {\n")
+    b.add(read("spec/parser_prelude.rs"))
+    sr = Woven(error_rs, "struct", "SourceRange", log)
+    if sr.attrs != ["#[derive(Clone, Copy, Debug)]"]:
+        raise LostAnchor(f"src/error.rs struct SourceRange: expected #[derive(Clone, Copy, Debug)], found {sr.attrs}")
+    b.add("#[derive(Clone, Copy)]\n" + sr.text())
+    # token.rs: the three type definitions, in a module of the same name (the macros say `token::Variant::..`)
+    b.add("pub mod token {\nuse super::*;\n")
+    for kind, name in (("struct", "Token"), ("enum", "Variant"), ("enum", "TerminatorType")):
+        t = Woven(token_rs, kind, name, log)
+        if t.attrs != ["#[derive(Clone, Debug)]"]:
+            raise LostAnchor(f"src/token.rs {kind} {name}: expected #[derive(Clone, Debug)], found {t.attrs}")
+        log["dropped"].append({"site": f"src/token.rs {kind} {name}", "text": t.attrs[0], "why": "tokens are only read through a shared slice; TerminatorType keeps a Clone impl (below)"})
+        b.add(t.text())
+    b.add(sc["token.clone"])
+    b.add("}\nuse token::{TerminatorType, Token};\n")
+    c = parser_rs.lines
+    ph = [l for l in c if l.startswith("pub const PLACEHOLDER_VARIABLE")]
+    if ph != ['pub const PLACEHOLDER_VARIABLE: &str = "_";']:
+        raise LostAnchor("src/parser.rs: const PLACEHOLDER_VARIABLE not as expected")
+    b.add(ph[0].replace("&str", "&'static str"))  # elided lifetime written out (Verus turns a const into a function)
+    sv = Woven(parser_rs, "struct", "SourceVariable", log)
+    if sv.attrs != ["#[derive(Clone, Copy, Debug)]"]:
+        raise LostAnchor(f"src/parser.rs struct SourceVariable: unexpected attributes {sv.attrs}")
+    b.add("#[derive(Clone, Copy)]\n" + sv.text())
+    t = Woven(parser_rs, "struct", "Term", log)
+    v = Woven(parser_rs, "enum", "Variant", log)
+    for w in (t, v):
+        if w.attrs != ["#[derive(Clone)]"]:
+            raise LostAnchor(f"src/parser.rs {w.kind} {w.name}: expected #[derive(Clone)], found {w.attrs}")
+    log["rewrites"].append({"rule": "R1-derive-clone", "site": "src/parser.rs struct Term", "before": "#[derive(Clone)]", "after": "(assumed Clone impl: r == *self)", "note": "Verus gives a derived non-Copy Clone no specification"})
+    b.add(t.text())
+    b.add(v.text())
+    b.add(PARSER_CLONE_IMPLS)
+    nt = Woven(parser_rs, "enum", "Nonterminal", log)
+    if nt.attrs != ["#[derive(Clone, Copy, Debug, Eq, Hash, PartialEq)]"]:
+        raise LostAnchor(f"src/parser.rs enum Nonterminal: unexpected attributes {nt.attrs}")
+    log["dropped"].append({"site": "src/parser.rs enum Nonterminal", "text": "Debug, Eq, Hash, PartialEq", "why": "only used by the HashMap, which is modelled by the cache stubs"})
+    b.add("#[derive(Clone, Copy)]\n" + nt.text())
+    b.add(read("spec/parser_view.rs"))
+    b.add(read("spec/packrat_spec.rs"))
+
+    sp = Woven(parser_rs, "fn", "span", log)
+    b.add_fn(sp, external=False)
+    et = Woven(parser_rs, "fn", "error_term", log)
+    et.contract(sc["error_term.contract"], ret="r")
+    b.add_fn(et, external="error_term" in external)
+    fns = packrat_functions(repo)
+    for variant, fname in fns:
+        w = Woven(parser_rs, "fn", fname, log)
+        # canary: a deliberately wrong nonterminal in the contract of one function (must-fail run)
+        weave_parse_fn(w, canary[1] if canary and canary[0] == fname else variant, sc)
+        b.add_fn(w, external=fname in external)
+    # collect_error_factories: what the acceptance test of parse() looks at
+    ce = Woven(parser_rs, "fn", "collect_error_factories", log)
+    m = re.match(r"^fn collect_error_factories<'a>\((\w+): &mut Vec<ErrorFactory<'a>>, (\w+): &Term<'a>\) \{$", ce.lines[0])
+    if not m:
+        raise LostAnchor("src/parser.rs fn collect_error_factories: signature not as expected")
+    sub = lambda t: t.replace("$OUT", m.group(1)).replace("$TERM", m.group(2))
+    ce.before(r"^    for \w+ in &%s\.errors \{$" % m.group(2), sub(sc["collect.ghost"]))
+    ce.for_invariant(1, "it", sub(sc["collect.invariant"]), regex=r"^    for \w+ in &%s\.errors \{$" % m.group(2))
+    ce.contract(sub(sc["collect.contract"]))
+    b.add_fn(ce, external="collect_error_factories" in external)
+    # parse(): its prefix up to [tag:error_check]; the remainder is cut (R16)
+    pa = Woven(parser_rs, "fn", "parse", log)
+    weave_parse_prefix(pa, sc)
+    b.add_fn(pa, external="parse" in external)
+    if with_witness:
+        b.add(read("spec/packrat_witness.rs"))
+    if canary and canary[0] == "*calls*":
+        # concrete-call canary: the contracts of all functions together are not contradictory
+        calls = "".join(f"    let r = {fname}(cache, tokens, start);\n" for _, fname in fns)
+        b.add(sc["canary.head"] + calls + "    assert(false);\n}\n")
+    b.add("} // verus!\nfn main() {}\n")
+    return b
+
+
 def canaries(unit):
     """fn -> sidecar section holding a deliberately wrong contract (must-fail vacuity guard)."""
     if unit == "core":
         return {fn: fn + ".canary" for fn in ("signed_shift", "unsigned_shift", "open", "free_variables", "is_value", "step", "step_strict")}
     if unit == "parser":
         return {fn: fn + ".canary" for fn in ("reassociate_applications", "reassociate_products_and_quotients", "reassociate_sums_and_differences")}
+    if unit == "packrat":
+        # claim that everything is a `group` (and that a group is a `type`): false for every function
+        return {}
     return {}
+
+
+def packrat_canaries(repo):
+    return {f: ("Type" if v == "Group" else "Group") for v, f in packrat_functions(repo)}
 
 
 if __name__ == "__main__":
     import sys, json
     which = sys.argv[3] if len(sys.argv) > 3 else "core"
-    b = {"core": build_core, "parser": build_parser}[which](sys.argv[1] if len(sys.argv) > 1 else "/repo")
+    b = {"core": build_core, "parser": build_parser, "packrat": build_packrat}[which](sys.argv[1] if len(sys.argv) > 1 else "/repo")
     dst = sys.argv[2] if len(sys.argv) > 2 else "/var/tmp/gv/core.rs"
     with open(dst, "w") as f:
         f.write(b.text())
